@@ -93,6 +93,7 @@ type Obligation struct {
 	Trail   string
 	Props   []string
 	MustFail bool // vacuity probe: expected NOT to be provable
+	Structural bool // decided on the SSA without a solver
 	// results
 	Status string // proved, failed, unknown
 	Solver string
